@@ -283,6 +283,50 @@ def pkcs1_v15_template(chk):
             chk.ok(R, inst, F.where(cm[0]))
 
 
+def full_word_carry_keeps_pending(chk):
+    """The i32 integers use all 32 bits of a word, so the carry / borrow out of a word cannot be read from a spare bit: it is
+    `(naw < aw)` - or, when the incoming carry is set, also `(naw == aw)` (the operand word was all-ones / all-zeros and the carry
+    passes through).  Rule for br_i32_add and br_i32_sub: the value carried to the next iteration is an OR of a comparison of the new
+    word with the old one and of `cc & EQ(new, old)`.  Without the second term a modulus with an all-ones word gives wrong results."""
+    from .. import wmw
+    R = 'full-word-carry-keeps-pending'
+    P = wmw.program()
+    n = 0
+    for fn in ('br_i32_add', 'br_i32_sub'):
+        Fs = [F for (un, g), F in P.static.items() if g == fn]
+        if not Fs:
+            raise AnalysisBroken('%s vanished' % fn)
+        F = Fs[0]
+        inloop = F.loops_blocks()
+        phis = [i for i in F.insts.values() if i['op'] == 'phi' and F.block_of[i['id']] in inloop and any(o['k'] == 'c' and o['v'] == 0 for o in i['ops'])
+                and i['ty'] == 'i32']
+        ok_, seen = False, 0
+        for ph in phis:
+            for o in ph['ops']:
+                o = F.strip_casts(o)
+                if o['k'] != 'i' or F.insts[o['v']]['op'] != 'or':
+                    continue
+                seen += 1
+                terms = [F.strip_casts(x) for x in F.insts[o['v']]['ops']]
+                has_and = False
+                for t in terms:
+                    if t['k'] == 'i' and F.insts[t['v']]['op'] == 'and':
+                        aops = [F.strip_casts(x) for x in F.insts[t['v']]['ops']]
+                        if any(x == {'k': 'i', 'v': ph['id']} for x in aops) and any(x['k'] == 'i' and F.insts[x['v']].get('callee') == 'EQ' for x in aops):
+                            has_and = True
+                has_cmp = any(t['k'] == 'i' and F.insts[t['v']].get('callee') in ('GT', 'LT') for t in terms)
+                if has_and and has_cmp:
+                    ok_ = True
+        n += 1
+        inst = '%s: next carry = (cc & EQ(new, old)) | (new <> old)' % fn
+        if ok_:
+            chk.ok(R, inst, F.where())
+        else:
+            chk.violation(R, inst, F.where(), 'the loop-carried carry is not of that form (%d OR-combinations reach the carry variable): a pending carry is lost when the '
+                          'operand word leaves the result word unchanged (0xFFFFFFFF in a subtrahend)' % seen, key='%s %s' % (R, fn))
+    chk.floor('full-word carry chains', n, 2)
+
+
 def pubexp_width_gate(chk):
     """br_rsa_iXX_compute_pubexp returns the public exponent only when it fits 32 bits (0 otherwise).  The gate compares the *encoded* bit
     length returned by br_iXX_bit_length ((word index << s) + bits in the top word) with a constant: that constant must be
@@ -609,6 +653,7 @@ def run(tier):
     zero_stripping_direction(chk)
     pubexp_width_gate(chk)
     pkcs1_v15_template(chk)
+    full_word_carry_keeps_pending(chk)
     pubexp_fully_converted(chk)
     modpow_temporaries(chk)
     client_keyx_padding(chk)
